@@ -230,7 +230,11 @@ def run(ctx):
     C.build_harness('h_pkt')
     cs = []
     for i, k in enumerate(['UDP', 'TCP', 'IP', 'ICMP', 'EthernetII'] * (2 if quick else 20)):
-        tail = rng.choice([['raw x' + bytes(rng.randrange(256) for _ in range(rng.randrange(1, 20))).hex()], ['push UDP', 'raw x0102'], ['push IP', 'push UDP']])
+        # (a transport layer directly on a PDUCacher<IP> casts its parent to IP: that is the recorded C13 finding, not this property's subject)
+        tail = [['raw x' + bytes(rng.randrange(256) for _ in range(rng.randrange(1, 20))).hex()]]
+        if k == 'EthernetII':
+            tail += [['push IP', 'push UDP', 'raw x0102'], ['push IP', 'push TCP']]
+        tail = rng.choice(tail)
         cs.append(('k%d' % i, ['newc ' + k] + tail + ['clone']))
     kh = C.run_harness('h_pkt', cs)
     ctx.cov['evaluations'] += len(cs)
